@@ -474,7 +474,9 @@ class PSBTView:
         h.update(bytes([2 * ext_flag + int(annex is not None)]))
         if anyonecanpay:
             vin = self.vin(input_index)
-            h.update(vin.serialize())
+            # outpoint only: scriptsig is not a part of the message
+            h.update(bytes(reversed(vin.txid)))
+            h.update(vin.vout.to_bytes(4, "little"))
             h.update(values[input_index].to_bytes(8, "little"))
             h.update(script_pubkeys[input_index].serialize())
             h.update(vin.sequence.to_bytes(4, "little"))
